@@ -2138,4 +2138,29 @@ theorem fmtDict1_eq_spec (key : Str) (v : NInt) :
     fmtDict1 key v = [123, 34] ++ key ++ [34, 58, 32] ++ showInt false 10 v.val ++ [125] := by
   unfold fmtDict1; rw [reprNInt_eq_spec]
 
+/-! ## 20. a format string renders as a function of (flags, value) per slot — nothing else -/
+
+/-- re-evaluating every interpolated expression (`g`: to any representation of the same VALUE) while
+keeping each slot's flags (taken from the literal) and the literal text renders identically.
+This is what `freeze` relies on: it rebuilds each interpolated expression and must keep the
+literal's flags (a rebuilt slot with fresh default flags would print `255` for `F"{n #x}"`). -/
+theorem fmtSlots_flags_value_only (g : NInt → NInt) (hg : ∀ n, (g n).val = n.val) :
+    ∀ (sl : List (Flags × NInt × Str)),
+    fmtSlots (sl.map fun s => (s.1, g s.2.1, s.2.2)) = fmtSlots sl
+  | [] => rfl
+  | (fl, n, lit) :: t => by
+    simp only [List.map_cons, fmtSlots, fmtNumWith_repr_independent fl (g n) n (hg n),
+      fmtSlots_flags_value_only g hg t]
+
+/-- dropping a slot's flags changes the text (witness: 255 with `#x`), so the flags are needed -/
+theorem fmtSlots_flags_matter :
+    fmtSlots [({ base := .lowerHex }, .small 255, [])] ≠ fmtSlots [({}, .small 255, [])] := by
+  intro h
+  have h1 : fmtSlots [({ base := .lowerHex }, .small 255, [])] = [102, 102] := by
+    simp [fmtSlots, fmtNumWith, fmtNInt, fmtI64, natRadix, FmtBase.radix, FmtBase.upper, digitsLE, digitChar]
+  have h2 : fmtSlots [({}, .small 255, [])] = [50, 53, 53] := by
+    simp [fmtSlots, fmtNumWith, fmtNInt, fmtI64, natRadix, digitsLE, digitChar]
+  rw [h1, h2] at h
+  simp at h
+
 end Noulith.C16
